@@ -326,7 +326,8 @@ class FakeSocket:
         if cursor >= len(keys):
             return [0, []]
         data = sorted(keys)
-        result_cursor = cursor + count
+        # A huge COUNT must not overflow the slice bounds
+        result_cursor = min(cursor + count, len(data))
         result_data = []
 
         regex = compile_pattern(pattern) if pattern is not None else None
